@@ -657,6 +657,13 @@ func (e *Engine) StrictBusy(on bool) {
 // connections that were closed meanwhile are still counted: the harness looks at differences on live pools).
 func (e *Engine) OpenStmts() int64 { return atomic.LoadInt64(&e.openStmts) }
 
+// SessionCount is the number of connections that are open.
+func (e *Engine) SessionCount() int {
+	e.mu.Lock()
+	defer e.mu.Unlock()
+	return len(e.sessions)
+}
+
 // OpenTxns lists ids of connections currently inside a transaction.
 func (e *Engine) OpenTxns() []int {
 	e.mu.Lock()
